@@ -7,6 +7,9 @@ Extracted by anchored patterns from the function bodies of util.sh:
   purge      the +1 compensation when not running, `tail -n "+${_n}"`, the whitelist of preserved
              names (find -not \\( -name P -o ... \\) -delete), the attic name transformation tr '-' '/',
              the removal of tmp, the copy/remove sequence
+  robsd-clean  (the script, not util.sh) the count argument with its default, the fallback to ${keep}, the
+             exit status when the retention is 0, which of the two purge forms runs for keep-attic 1 / otherwise,
+             and the texts handed to info
 Anything that no longer matches raises: the tie is reported as broken rather than guessed."""
 import os, re
 
@@ -68,6 +71,68 @@ def glob_to_coq(pat):
         elif part:
             toks.append('GLit %s' % coq_bytes(part))
     return '[' + '; '.join(toks) + ']'
+
+
+LOCK_ACQUIRE = [
+    '_rootdir="$1"; : "${_rootdir:?}"',
+    '_builddir="$2"; : "${_builddir:?}"',
+    '_owner="$(cat "${_rootdir}/.running" 2>/dev/null || :)"',
+    'if [ -n "${_owner}" ] && [ "${_owner}" != "${_builddir}" ]; then',
+    'info "${_owner}: lock already acquired"',
+    'return 1',
+    'fi',
+    'echo "${_builddir}" >"${_rootdir}/.running"',
+]
+ENTRY_SCRIPTS = ['robsd', 'robsd-cross', 'robsd-ports', 'robsd-regress', 'canvas']
+
+
+def new_invocation_sequence(repo):
+    """every entry script: BUILDDIR="${ROBSDDIR}/$(build_id "${ROBSDDIR}")", then build_init, then lock_acquire"""
+    for name in ENTRY_SCRIPTS:
+        src = open(os.path.join(repo, name)).read()
+        calls = re.findall(r'^\s*(BUILDDIR="\$\{ROBSDDIR\}/\$\(build_id "\$\{ROBSDDIR\}"\)"|build_init "\$\{BUILDDIR\}"|'
+                           r'lock_acquire "\$\{ROBSDDIR\}" "\$\{BUILDDIR\}")\s*$', src, re.M)
+        if [c.split(' ')[0].split('=')[0] for c in calls] != ['BUILDDIR', 'build_init', 'lock_acquire']:
+            raise ValueError('%s: build_id / build_init / lock_acquire sequence changed: %r' % (name, calls))
+
+
+def clean_script(repo):
+    """the part of robsd-clean after option parsing: configuration variables, retention, the two loops"""
+    src = open(os.path.join(repo, 'robsd-clean')).read()
+    m = re.search(r"^config_load <<'EOF'\n(.*?)^EOF\n", src, re.S | re.M)
+    if not m:
+        raise ValueError('robsd-clean: config_load here-document not found')
+    conf = [l for l in m.group(1).split('\n') if l]
+    if conf != ['ROBSDDIR="${robsddir}"', 'KEEPDIR="${keep-dir}"', 'KEEP="${keep}"']:
+        raise ValueError('robsd-clean: configuration variables changed: %r' % conf)
+    tail = norm(src[m.end():])
+    m1 = re.fullmatch(r'_keep="\$\{1:-(\d+)\}"', tail[0]) if tail else None
+    if not m1:
+        raise ValueError('robsd-clean: count argument / default changed: %r' % tail[:1])
+    default = int(m1.group(1))
+    want = ['if [ "${_keep}" -eq %d ]; then' % default, '_keep="${KEEP}"', 'fi',
+            'if [ "${_keep}" -eq 0 ]; then']
+    if tail[1:5] != want:
+        raise ValueError('robsd-clean: retention selection changed: %r' % tail[1:5])
+    m2 = re.fullmatch(r'exit (\d+)', tail[5])
+    if not m2 or tail[6] != 'fi':
+        raise ValueError('robsd-clean: exit for retention 0 changed: %r' % tail[5:7])
+    rest = tail[7:]
+    m3 = re.fullmatch(r'if \[ "\$\(config_value keep-attic\)" -eq (\d+) \]; then', rest[0]) if rest else None
+    if not m3:
+        raise ValueError('robsd-clean: keep-attic test changed: %r' % rest[:1])
+    if rest[1] != 'purge "${ROBSDDIR}" "${_keep}" | while read -r _d; do' or rest[3:5] != ['done', 'else'] or \
+       rest[5] != 'purge -d "${ROBSDDIR}" "${_keep}" | while read -r _d; do' or \
+       rest[7:] != ['rm -rf "${_d}"', 'done', 'fi']:
+        raise ValueError('robsd-clean: the two purge loops changed: %r' % rest)
+    mm = re.fullmatch(r'info "(.*)\$\{_d\}(.*)\$\{KEEPDIR\}"', rest[2])
+    mr = re.fullmatch(r'info "(.*)\$\{_d\}"', rest[6])
+    if not mm or not mr:
+        raise ValueError('robsd-clean: messages changed: %r / %r' % (rest[2], rest[6]))
+    if not re.search(r'^setprogname "robsd-clean"$', src, re.M):
+        raise ValueError('robsd-clean: setprogname changed')
+    return {'default': default, 'zero_exit': int(m2.group(1)), 'attic_value': int(m3.group(1)),
+            'moving': mm.group(1), 'to': mm.group(2), 'removing': mr.group(1)}
 
 
 def generate(repo):
@@ -154,6 +219,25 @@ def generate(repo):
     out.append('  [' + ';\n   '.join(coq_bytes(p) for p in pats) + '].')
     out.append('Definition purge_attic_tr_from : N := %d.' % ord('-'))
     out.append('Definition purge_attic_tr_to : N := %d.' % ord('/'))
+    out.append('')
+    b = norm(func_body(src, 'lock_acquire'))
+    if b != LOCK_ACQUIRE:
+        raise ValueError('util.sh lock_acquire: body changed: %r' % b)
+    new_invocation_sequence(repo)
+    out.append('(* lock_acquire: refuses iff .running (less trailing newlines) is non-empty and differs from the build directory;')
+    out.append('   the five entry scripts call build_id, build_init, lock_acquire in this order *)')
+    out.append('Definition lock_acquire_compares_owner : bool := true.')
+    out.append('Definition lock_taken_after_build_init : bool := true.')
+    out.append('')
+    cs = clean_script(repo)
+    out.append('(* robsd-clean: _keep="${1:-%d}", 0 -> ${keep}, still 0 -> exit %d; keep-attic %d -> purge, otherwise purge -d + rm -rf *)'
+               % (cs['default'], cs['zero_exit'], cs['attic_value']))
+    out.append('Definition clean_count_default : nat := %d%%nat.' % cs['default'])
+    out.append('Definition clean_zero_exit : N := %d.' % cs['zero_exit'])
+    out.append('Definition clean_attic_value : nat := %d%%nat.' % cs['attic_value'])
+    out.append('Definition clean_msg_moving : bytes := %s.' % coq_bytes(cs['moving']))
+    out.append('Definition clean_msg_to : bytes := %s.' % coq_bytes(cs['to']))
+    out.append('Definition clean_msg_removing : bytes := %s.' % coq_bytes(cs['removing']))
     out.append('')
     return {'Gen_Util.v': '\n'.join(out)}
 
